@@ -409,3 +409,70 @@ def r2_4(ctx):
                        "a %s king move can be published without removing %s" % (colour, right) if hits else
                        "every path consistent with a %s king move removes %s" % (colour, right))
     ctx.floor("corner/king right obligations", n, 12)
+
+
+def r2_7(ctx):
+    """Move identity: last_move names exactly the move that move_piece made (same from/to values);
+    the en-passant removal square is one step behind the target as seen by the mover; promote_pawn
+    is handed (from, to) in that order and rewrites the to-square."""
+    an = get(ctx)
+    n = 0
+    for site in an.sites:
+        b, ex, L = site.b, site.ex, site.L
+        mp = [(loc, ev) for loc, evs in site.events.items() for ev in evs if ev[0] == "call" and ev[1] == MOVE_PIECE and ev[2] == 0]
+        lm = [(loc, ev) for loc, evs in site.events.items() for ev in evs if ev[0] == "write" and ev[1][0] == "last_move"]
+        if len(mp) == 1 and len(lm) == 1:
+            n += 1
+            a = ex.call_args(mp[0][0][0])
+            frm, to = strip_refs(a[1]), strip_refs(a[2])
+            v = strip_refs(lm[0][1][2])
+            ok = v[0] == "agg" and v[2] == "Some" and v[3][0][0] == "agg" and v[3][0][1] == "tuple" and \
+                strip_refs(v[3][0][3][0]) == frm and strip_refs(v[3][0][3][1]) == to
+            ctx.ob("%s:last_move-names-the-move" % site.name, ok, b.where(lm[0][0]),
+                   "move_piece(%s, %s) and last_move = %s must name the same squares in the same order" % (show_expr(frm, b)[:30], show_expr(to, b)[:40], show_expr(v, b)[:80]))
+            frm_ok = frm[0] == "arg" and b.local_ty(frm[1]) == "board::Point"
+            ctx.ob("%s:moves-the-piece-it-was-called-for" % site.name, frm_ok, b.where(mp[0][0]), "from-square is the square of the piece being generated for")
+            # ep removal
+            emp = [(loc, ev) for loc, evs in site.events.items() for ev in evs if ev[0] == "write" and ev[1][0] == "board" and ev[2][0] == "agg" and ev[2][2] == "Empty"]
+            if emp:
+                colours = ctx.facts.enum_variant_by_discr("board::PieceColor")
+                pp = [i for i in range(1, b.arg_count + 1) if b.local_ty(i) == "board::Piece"]
+                from wa.cond import enum_value_on_trace
+                from wa.linear import linear
+                for loc, ev in emp:
+                    st = b.stmts(loc[0])[loc[1]]
+                    idx = [ex.local(e["local"], loc) for e in st["place"]["proj"] if e["k"] == "index"]
+                    poss = enum_value_on_trace(b, ex, loc[0], ("field", ("arg", pp[0]), "color"), colours) if pp else set()
+                    okp = False
+                    if len(idx) == 2 and len(poss) == 1:
+                        mover = next(iter(poss))
+                        lr, lc = linear(idx[0]), linear(idx[1])
+                        okp = lr is not None and lc is not None and lr[0] == {("field", to, "0"): 1} and lr[1] == -chess.PAWN[mover]["dir"] and lc[0] == {("field", to, "1"): 1} and lc[1] == 0
+                    ctx.ob("%s:ep-removes-the-passed-pawn:%s" % (site.name, sorted(poss)), okp, b.where(loc),
+                           "the square emptied by the en-passant capture is (target.row %+d, target.col) for a %s capturer: one step behind the target" % (
+                               -chess.PAWN[next(iter(poss))]["dir"] if len(poss) == 1 else 0, sorted(poss)))
+        elif not mp and lm:
+            # promote_pawn: parameters (start, target)
+            pts = [i for i in range(1, b.arg_count + 1) if b.local_ty(i) == "board::Point"]
+            if len(pts) == 2:
+                n += 1
+                v = strip_refs(lm[0][1][2])
+                ok = v[0] == "agg" and v[2] == "Some" and strip_refs(v[3][0][3][0]) == ("arg", pts[0]) and strip_refs(v[3][0][3][1]) == ("arg", pts[1])
+                ctx.ob("%s:last_move=(start,target)" % site.name, ok, b.where(lm[0][0]), "promotion successor names (start, target)")
+                wr = [(loc, ev) for loc, evs in site.events.items() for ev in evs if ev[0] == "write" and ev[1][0] == "board"]
+                for loc, ev in wr:
+                    st = b.stmts(loc[0])[loc[1]]
+                    idx = [ex.local(e["local"], loc) for e in st["place"]["proj"] if e["k"] == "index"]
+                    okw = idx == [("field", ("arg", pts[1]), "0"), ("field", ("arg", pts[1]), "1")]
+                    ctx.ob("%s:promotes-on-target" % site.name, okw, b.where(loc), "the promotion piece is written on the target square")
+                # callers pass (from, to) of their own move in that order
+                for caller in an.sites:
+                    for loc, kind, callee in caller.publishes:
+                        if kind == "delegate" and callee[0] == b.name:
+                            ca = caller.ex.call_args(loc[0])
+                            cmp_ = [(l2, e2) for l2, evs in caller.events.items() for e2 in evs if e2[0] == "call" and e2[1] == MOVE_PIECE and e2[2] == 0]
+                            if cmp_:
+                                a2 = caller.ex.call_args(cmp_[0][0][0])
+                                okc = strip_refs(ca[pts[0] - 1]) == strip_refs(a2[1]) and strip_refs(ca[pts[1] - 1]) == strip_refs(a2[2])
+                                ctx.ob("%s:hand-over(from,to)@%d" % (caller.name, loc[0]), okc, caller.b.where(loc), "promote_pawn receives the from/to squares of the move just made, in that order")
+    ctx.floor("move identity sites", n, 3)
